@@ -566,10 +566,10 @@ fn main() {
             SubCheck {
                 name: "values",
                 about: "round trip, hash rule, canonicity under byte perturbations, trusted/untrusted agreement for generated values of every registry type",
-                source: Source::Random { len: 1024, quick: 48_000, thorough: 960_000 },
+                source: Source::Random { len: 1024, quick: 60_000, thorough: 1_200_000 },
                 run: case_values,
                 inflight: false,
-                min_nontrivial: 15_000,
+                min_nontrivial: 18_000,
                 required_labels: &[
                     "type:FullBlock",
                     "type:UnfinishedBlock",
